@@ -33,11 +33,11 @@ type refPeer struct {
 	zeroOff   bool
 	r         Rng
 
-	offer    []peerMsg               // messages to propose
-	policy   map[string]byte         // answer for a MID proposed by the library: '+', '-', '='
-	received map[string][]byte       // MID -> decompressed bytes
-	answered map[string]byte         // library's answers to our proposals
-	libAns   map[string]byte         // our answers to the library's proposals
+	offer    []peerMsg         // messages to propose
+	policy   map[string]byte   // answer for a MID proposed by the library: '+', '-', '='
+	received map[string][]byte // MID -> decompressed bytes
+	answered map[string]byte   // library's answers to our proposals
+	libAns   map[string]byte   // our answers to the library's proposals
 	problems []string
 	libFF    bool
 	quit     bool // the peer ended the session with FQ
